@@ -457,6 +457,8 @@ impl AssetCategorizer {
         let mut asset_to_output = HashSet::new();
         let mut asset_to_new_output = HashSet::new();
 
+        #[cfg(csl_verif)]
+        crate::verif_hooks_c13::record_send_all_order("a", assets.iter().map(|a| a.0));
         for asset in assets {
             let new_size = self.assets_calculator.add_asset_to_intermediate_value(
                 &mut new_value_state,
@@ -615,6 +617,8 @@ impl AssetCategorizer {
         for (index, _) in assets.iter() {
             let utxos_set = self.free_asset_to_utxos.get(index);
             if let Some(utxos) = utxos_set {
+                #[cfg(csl_verif)]
+                crate::verif_hooks_c13::record_send_all_order("u", utxos.iter().map(|u| u.0));
                 for utxo in utxos {
                     if let Some(new_txp) = self.prototype_append(tx_propoasl, utxo)? {
                         if new_txp.makes_new_outputs {
